@@ -39,7 +39,7 @@ void gen_config(Rng &rng, Program &p, const GenParams &gp) {
         if (rng.chance(0.25)) s.env["PNETCDF_SAFE_MODE"] = "1";
     }
     if (gp.knobs) {
-        if (rng.chance(0.5)) s.knobs["MOVE_UNIT"] = (long)(1 << rng.range(0, 12));
+        if (rng.chance(0.5)) s.knobs["MOVE_UNIT"] = (long)(rng.chance(0.3) ? rng.range(61, 700) : 1 << rng.range(6, 12));
         if (rng.chance(0.5)) s.knobs["PNC_DEFAULT_CHUNKSIZE"] = (long)(rng.chance(0.5) ? 4 * rng.range(8, 64) : 1 << rng.range(6, 12));
         if (rng.chance(0.5)) s.knobs["NC_REQUEST_CHUNK"] = (long)rng.range(1, 4);
         if (rng.chance(0.5)) s.knobs["NC_ABUF_DEFAULT_TABLE_SIZE"] = (long)rng.range(2, 4);
@@ -159,20 +159,25 @@ Program gen_program(uint64_t seed, const GenParams &gp, const std::string &profi
     Program p; p.seed = seed; p.cfg.profile = profile;
     uint64_t sd = seed ^ 0x5bd1e995; Rng rng(Rng::splitmix(sd));
     gen_config(rng, p, gp);
-    if (gp.nonblocking && rng.chance(0.1)) p.cfg.flags |= 1;   // strict checking of overlapping iget requests
+    if (gp.iget_overlap_strict && rng.chance(0.1)) p.cfg.flags |= 1;   // strict checking of overlapping iget requests
     int np = p.cfg.sim.nprocs;
-    Model gm; gm.init(np, gp.multi_file ? 3 : 1); gm.cur_ops = &p.ops; gm.strict_iget_overlap = (p.cfg.flags & 1) != 0;
+    Model gm; gm.init(np, gp.multi_file ? 3 : 1); gm.cur_ops = &p.ops; gm.strict_iget_overlap = (p.cfg.flags & 1) != 0; { auto h = p.cfg.sim.env.find("PNETCDF_HINTS"); gm.aggr_env = (h != p.cfg.sim.env.end() && h->second.find("nc_num_aggrs_per_node") != std::string::npos); }
     auto it = p.cfg.sim.env.find("PNETCDF_RELAX_COORD_BOUND"); gm.strict_coord = (it != p.cfg.sim.env.end() && it->second == "0");
     auto emit = [&](Op op) -> bool { p.ops.push_back(op); gm.cur_ops = &p.ops; bool ok = model_step(gm, p.ops.back()); if (!ok) { p.ops.pop_back(); gm.opidx--; } return ok; };
     auto checkpoint = [&]() { Op o; o.kind = OP_CHECKPOINT; emit(o); };
     int nfiles = gp.multi_file ? (int)rng.range(1, 3) : 1;
     int ndim_ctr = 0, nvar_ctr = 0, natt_ctr = 0;
     for (int fi = 0; fi < nfiles; fi++) {
+        if (gp.redef && rng.chance(0.1)) {   // aborting a freshly created dataset removes it
+            Op c0; c0.kind = OP_CREATE; c0.file = fi; c0.name = "/sim/aborted" + std::to_string(fi) + ".nc"; c0.a[0] = p.cfg.format; emit(c0);
+            Op d0; d0.kind = OP_DEF_DIM; d0.file = fi; d0.name = "x"; d0.a[0] = 3; emit(d0);
+            Op ab; ab.kind = OP_ABORT; ab.file = fi; emit(ab); checkpoint();
+        }
         Op c; c.kind = OP_CREATE; c.file = fi; c.name = "/sim/f" + std::to_string(fi) + ".nc"; c.a[0] = p.cfg.format;
         if (gp.bb) { c.hints["nc_burst_buf"] = "enable"; }
         emit(c);
         MFile &f = gm.files[fi];
-        auto define_phase = [&](bool first) {
+        auto define_phase = [&](bool first, bool finish = true) {
             if (gp.fill && rng.chance(0.5)) { Op o; o.kind = OP_SET_FILL; o.file = fi; o.a[0] = rng.chance(0.7); emit(o); }
             int nd = first ? (int)rng.range(1, 4) : (int)rng.range(0, 2);
             for (int i = 0; i < nd; i++) { Op o; o.kind = OP_DEF_DIM; o.file = fi; o.name = gen_name(rng, "d", ndim_ctr++, gp.utf8_names); o.a[0] = (gp.recs && f.unlimdim() < 0 && rng.chance(0.4)) ? 0 : rng.range(1, gp.big && rng.chance(0.2) ? 40 : gp.max_dimlen); emit(o); }
@@ -205,10 +210,12 @@ Program gen_program(uint64_t seed, const GenParams &gp, const std::string &profi
                     emit(o);
                 }
             }
+            if (!finish) return;
             Op e; e.file = fi;
             if (gp.align_args && rng.chance(0.5)) { e.kind = OP_ENDDEF2; e.a[0] = rng.chance(0.5) ? 0 : rng.range(0, 300); e.a[1] = rng.chance(0.5) ? 1 << rng.range(2, 9) : rng.range(1, 40) * 4; e.a[2] = rng.chance(0.5) ? 0 : rng.range(0, 100); e.a[3] = rng.chance(0.5) ? 1 << rng.range(2, 9) : rng.range(1, 40) * 4; }
             else e.kind = OP_ENDDEF;
             emit(e);
+            if (gp.fill && rng.chance(0.85)) { Op sp; sp.kind = OP_SYNCPOINT; sp.file = fi; emit(sp); }
         };
         define_phase(true);
         if (gp.checkpoint_each) checkpoint();
@@ -246,7 +253,16 @@ Program gen_program(uint64_t seed, const GenParams &gp, const std::string &profi
                     if (emit(o)) { pending = 0; if (rng.chance(0.7)) { Op s; s.kind = OP_SYNCPOINT; s.file = fi; emit(s); } }
                 } else { o.kind = OP_CANCEL; o.waits.resize(np); for (int r = 0; r < np; r++) { WaitSpec &w = o.waits[r]; w.mode = rng.chance(0.3) ? 1 : 0; int n = (int)rng.range(0, 3); for (int i = 0; i < n; i++) w.slots.push_back((int)rng.below(12)); } emit(o); }
             } else if (x < 0.95 && gp.redef) {
-                o.kind = OP_REDEF; if (emit(o)) { define_phase(false); }
+                o.kind = OP_REDEF;
+                if (emit(o)) {
+                    if (rng.chance(0.25)) {   // aborted redefinition: the file must be byte-identical to its state at ncmpi_redef
+                        Op c1; c1.kind = OP_CHECKPOINT; c1.file = fi; c1.a[0] = 1; emit(c1);
+                        define_phase(false, false);
+                        Op ab; ab.kind = OP_ABORT; ab.file = fi; emit(ab);
+                        Op c2; c2.kind = OP_CHECKPOINT; c2.file = fi; c2.a[0] = 2; emit(c2);
+                        Op re; re.kind = OP_OPEN; re.file = fi; re.name = "/sim/f" + std::to_string(fi) + ".nc"; re.a[0] = 1; emit(re);
+                    } else define_phase(false);
+                }
             } else if (gp.fill && v.isrec) { o.kind = OP_FILL_VAR_REC; o.a[0] = rng.range(0, f.numrecs + 1); emit(o); }
             else if (gp.meta_heavy) { o.kind = OP_RENAME_VAR; size_t cut = std::max<size_t>(1, v.name.size() - 1); while (cut > 1 && ((unsigned char)v.name[cut] & 0xC0) == 0x80) cut--; o.name2 = v.name.substr(0, cut); if (o.name2 != v.name) emit(o); }
             if (gp.checkpoint_each) checkpoint();
